@@ -232,6 +232,39 @@ impl Assembler {
     }
 }
 
+/// Read-only probe for the verification hooks (compiled only with `--cfg quinn_rs_quinn_verif`).
+#[cfg(quinn_rs_quinn_verif)]
+impl Assembler {
+    /// `[ordered, buffered, allocated, end, n, (offset, len, allocation_size, defragmented) * n
+    ///   (in the heap's internal array order), m, (start, end) * m (recvd, unordered mode only)]`
+    pub(super) fn verif_probe(&self) -> Vec<i128> {
+        let mut o = vec![
+            self.state.is_ordered() as i128,
+            self.buffered as i128,
+            self.allocated as i128,
+            self.end as i128,
+            self.data.len() as i128,
+        ];
+        for b in self.data.iter() {
+            o.push(b.offset as i128);
+            o.push(b.bytes.len() as i128);
+            o.push(b.allocation_size as i128);
+            o.push(b.defragmented as i128);
+        }
+        match self.state {
+            State::Ordered => o.push(0),
+            State::Unordered { ref recvd } => {
+                o.push(recvd.iter().count() as i128);
+                for r in recvd.iter() {
+                    o.push(r.start as i128);
+                    o.push(r.end as i128);
+                }
+            }
+        }
+        o
+    }
+}
+
 /// A chunk of data from the receive stream
 #[derive(Debug, PartialEq, Eq)]
 pub struct Chunk {
